@@ -80,7 +80,7 @@ SOURCES = [
        self_calls={'allocate_new_hazard_eras_block': 'dynamic_allocate_new_hazard_eras_block'}, must_fire={'self_call:allocate_new_hazard_eras_block': 1}),
   dict(TCB, id='dynamic_number_of_hes', file=IMPL, sig=r'size_t number_of_hes\(\) const', which=1, c_sig='static size_t dynamic_number_of_hes(struct tcb* self)',
        must_fire={'member:total_number_of_hes': 1}),
-  dict(TCB, id='dynamic_initialize_next_block', file=IMPL, sig=r'hazard_era\* initialize_next_block\(\)\s*(?=\{)', which=1,
+  dict(TCB, methods=dict(HE_METHODS, begin='BLK_begin', end='BLK_end'), id='dynamic_initialize_next_block', file=IMPL, sig=r'hazard_era\* initialize_next_block\(\)\s*(?=\{)', which=1,   # begin/end: a text that walks the block itself
        c_sig='static struct hazard_era* dynamic_initialize_next_block(struct tcb* self)',
        subst=[(r'base::initialize_block\(\*(\w+)\)', r'blk_initialize_block(\1)', 'initialize_block')], must_fire={'A_LOAD': 1, 'subst:initialize_block': 1}),
   dict(TCB, id='dynamic_allocate_new_hazard_eras_block', file=IMPL, sig=r'hazard_era\* allocate_new_hazard_eras_block\(\)',
@@ -99,7 +99,7 @@ SOURCES = [
        types={'hazard_era*': 'xv_slots_after'}, must_fire={'cast': 1}),
   dict(id='blk_end', file=IMPL, sig=r'hazard_era\* end\(\)', which=2, c_sig='static struct hazard_era* blk_end(struct he_block* self)',
        members=['size'], self_calls={'begin': 'blk_begin'}, must_fire={'member:size': 1, 'self_call:begin': 1}),
-  dict(id='blk_initialize_next_block', file=IMPL, sig=r'hazard_era\* initialize_next_block\(\)\s*(?=\{)', which=0,
+  dict(methods=dict(HE_METHODS, begin='BLK_begin', end='BLK_end'), id='blk_initialize_next_block', file=IMPL, sig=r'hazard_era\* initialize_next_block\(\)\s*(?=\{)', which=0,
        c_sig='static struct hazard_era* blk_initialize_next_block(struct he_block* self)', members=['next'],
        subst=[(r'base::initialize_block\(\*(\w+)\)', r'blk_initialize_block(\1)', 'initialize_block')], must_fire={'subst:initialize_block': 1, 'member:next': 2}),
   dict(id='blk_initialize_block', file=IMPL, sig=r'static hazard_era\* initialize_block\(T& block\)',
